@@ -129,6 +129,8 @@ pub struct HistRun {
     /// histograms built around an already populated strategy: (strategy, more values added afterwards?, what the
     /// closed histogram reports, what the strategy itself drains)
     pub prefilled: Vec<(&'static str, bool, Vec<(f64, u64)>, Vec<(f64, u64)>)>,
+    /// the shared strategy drained while recorders were running: (occurrences over all drains, occurrences recorded)
+    pub concurrent_drain: Option<(u128, u128)>,
     pub done: bool,
 }
 
@@ -310,6 +312,31 @@ fn hist_main(plan: &Value, slot: Arc<Mutex<Option<HistRun>>>) {
         }
         prefilled!("SortAndMerge", SortAndMerge::<32>::default(), SortAndMerge<32>);
         prefilled!("ExponentialAggregationStrategy", ExponentialAggregationStrategy::default(), ExponentialAggregationStrategy);
+        // the shared strategy drained *while* other threads record into it (what a periodic reporter does): every
+        // observation is in exactly one drain
+        {
+            let shared = Arc::new(AtomicExponentialAggregationStrategy::default());
+            let parts: Vec<Vec<In>> = vec![ins[..cut].to_vec(), ins[cut..].to_vec()];
+            let mut hs = vec![];
+            for (k, part) in parts.into_iter().enumerate() {
+                let sh = shared.clone();
+                hs.push(detsim::thread::spawn_named(&format!("srec{}", k + 1), move || {
+                    for i in part {
+                        sh.record_many(i.x, i.n);
+                    }
+                }));
+            }
+            let mut drained: u128 = 0;
+            for _ in 0..3 {
+                detsim::yield_point();
+                drained += shared.drain().iter().map(|o| match o { Observation::Repeated { occurrences, .. } => *occurrences as u128, _ => 1 }).sum::<u128>();
+            }
+            for h in hs {
+                let _ = h.join();
+            }
+            drained += shared.drain().iter().map(|o| match o { Observation::Repeated { occurrences, .. } => *occurrences as u128, _ => 1 }).sum::<u128>();
+            run.concurrent_drain = Some((drained, ins.iter().map(|i| i.n as u128).sum()));
+        }
         reuse!("SortAndMerge", SortAndMerge::<32>::default(), record_many);
         reuse!("ExponentialAggregationStrategy", ExponentialAggregationStrategy::default(), record_many);
         reuse!("AtomicExponentialAggregationStrategy", AtomicExponentialAggregationStrategy::default(), record_many);
@@ -484,6 +511,11 @@ pub fn check_c11(plan: &Value, run: &HistRun) -> Option<Violation> {
     if run.merged_exp.obs != run.seq_exp.obs {
         return Some(Violation::new("merge_changes_exponential", format!("merging two closed exponential histograms differs from one histogram of all values: {:?} vs {:?}", &run.merged_exp.obs[..run.merged_exp.obs.len().min(6)], &run.seq_exp.obs[..run.seq_exp.obs.len().min(6)])));
     }
+    if let Some((got, want)) = run.concurrent_drain {
+        if got != want {
+            return Some(Violation::new("count_not_conserved", format!("atomic exponential strategy drained while other threads were recording: the drains together count {got} observations, {want} were recorded")));
+        }
+    }
     for (name, added, got, want) in &run.prefilled {
         // (bitwise: NaN-free lists of (total, occurrences))
         if got != want {
@@ -535,7 +567,8 @@ fn gen_x(rng: &mut Rng) -> (f64, &'static str) {
         3 => ((1u64 << rng.below(43)) as f64, "power_of_two"),
         4 => (rng.below(1 << 43) as f64 + rng.f64(), "random_large"),
         5 => (rng.f64() * 100.0, "random_small"),
-        6 => (0.0, "zero"),
+        // (either zero: equal as numbers, so they are one value - peeked, so that no draw moves)
+        6 => (if rng.clone().next_u64() % 2 == 0 { 0.0 } else { -0.0 }, "zero"),
         7 => ((1u64 << 43) as f64 - 1.0 - rng.below(1000) as f64, "near_2_43"),
         8 => (*rng.pick(&[5e-324, 1e-300, 2.2e-16, 1e-9, 0.1 + 0.2, 0.3]), "tiny_or_inexact"),
         _ => (rng.below(100_000) as f64 / 8.0, "random_mid"),
@@ -554,7 +587,7 @@ pub fn gen_c11(rng: &mut Rng, tier: Tier) -> Value {
     let mut pool: Vec<(f64, &'static str)> = (0..(2 + rng.below(6))).map(|_| gen_x(rng)).collect();
     // neighbours in floating point: distinct values one ulp apart must stay distinct
     if matches!(ty, "f64" | "rep" | "multi") && rng.chance(0.5) {
-        let (x, _) = pool[0];
+        let x = pool[0].0.abs();
         pool.push((f64::from_bits(x.to_bits() + 1), "adjacent_floats"));
         if x > 0.0 {
             pool.push((f64::from_bits(x.to_bits() - 1), "adjacent_floats"));
